@@ -251,6 +251,44 @@ def native_history_witness():
 _HW = {}
 
 
+def _same_up_to_pydsdl_memo(a: str, b: str) -> bool:
+    """two generated Python modules that are equal once the _MODEL_ blobs are decoded and pydsdl's internal memo of
+    alignment queries (BitLengthSet operator attribute _modula) is ignored"""
+    import ast as _ast, base64, gzip, pickle
+    pat = re.compile(r"(_MODEL_: [\w.]+ = _restore_constant_\(\n)((?:\s+'.*'\n)+)")
+
+    def split(text):
+        models = []
+        for m in pat.finditer(text):
+            blob = "".join(_ast.literal_eval(l.strip()) for l in m.group(2).splitlines())
+            models.append(pickle.loads(gzip.decompress(base64.b85decode(blob))))
+        return pat.sub(r"\1<model>\n", text), models
+
+    def same(x, y, seen):
+        if (id(x), id(y)) in seen:
+            return True
+        seen.add((id(x), id(y)))
+        if type(x) is not type(y):
+            return False
+        if hasattr(x, "__dict__"):
+            dx, dy = dict(vars(x)), dict(vars(y))
+            dx.pop("_modula", None), dy.pop("_modula", None)
+            return dx.keys() == dy.keys() and all(same(dx[k], dy[k], seen) for k in dx)
+        if isinstance(x, (list, tuple)):
+            return len(x) == len(y) and all(same(p, q, seen) for p, q in zip(x, y))
+        if isinstance(x, dict):
+            return x.keys() == y.keys() and all(same(x[k], y[k], seen) for k in x)
+        if isinstance(x, (set, frozenset)):
+            return x == y
+        return x == y
+    try:
+        ta, ma = split(a)
+        tb, mb = split(b)
+        return ta == tb and len(ma) == len(mb) and all(same(p, q, set()) for p, q in zip(ma, mb))
+    except Exception:
+        return False
+
+
 def native_subset_witness():
     """generate a namespace whole, then only a dependency-closed subset, and in another order: shared files equal"""
     import hashlib, pathlib, shutil, tempfile, pydsdl
@@ -258,27 +296,38 @@ def native_subset_witness():
     from nunavut._namespace import build_namespace_tree
     from nunavut.jinja import DSDLCodeGenerator
     base = pathlib.Path(tempfile.mkdtemp(prefix="vk_c10_"))
+    found: list = []
     try:
-        files = {"ns/A.1.0.dsdl": "uint8 x\nuint8 x_\n@sealed\n", "ns/B.1.0.dsdl": "ns.A.1.0 a\nint7[<=5] xs\n@sealed\n", "ns/C.1.0.dsdl": "@union\nuint8 p\nns.A.1.0 q\n@sealed\n"}
+        files = {"ns/A.1.0.dsdl": "uint8 x\nuint8 x_\n@sealed\n", "ns/B.1.0.dsdl": "ns.A.1.0 a\nint7[<=5] xs\n@sealed\n", "ns/C.1.0.dsdl": "@union\nuint8 p\nns.A.1.0 q\n@sealed\n",
+                 # a composite used as a plain field after a sub-byte field and followed by another field (its offsets are
+                 # computed while the HOLDER is rendered)
+                 "ns/Leaf.1.0.dsdl": "uint8 v\nuint3 w\n@sealed\n", "ns/Holder.1.0.dsdl": "uint3 a\nns.Leaf.1.0 leaf\nuint8 tail\n@sealed\n"}
         for rel, t in files.items():
             (base / rel).parent.mkdir(parents=True, exist_ok=True)
             (base / rel).write_text(t)
-        for lang in ("c", "py"):
+        from nunavut._utilities import YesNoDefault
+        for lang, nstypes in (("c", YesNoDefault.DEFAULT), ("py", YesNoDefault.DEFAULT), ("py", YesNoDefault.NO)):
             ctx = render.language_context(lang)
-            types = pydsdl.read_namespace(str(base / "ns"), [])
             outs = []
-            for k, subset in enumerate((types, [t for t in types if t.short_name != "C"], list(reversed(types)))):
-                out = base / f"{lang}{k}"
+            texts = []
+            for k in range(3):
+                types = pydsdl.read_namespace(str(base / "ns"), [])  # fresh model objects for every run
+                subset = (types, [t for t in types if t.short_name != "C"], list(reversed(types)))[k]
+                out = base / f"{lang}{k}{nstypes.name}"
                 ns = build_namespace_tree(subset, str(base / "ns"), str(out), ctx)
-                DSDLCodeGenerator(ns).generate_all()
+                DSDLCodeGenerator(ns, generate_namespace_types=nstypes).generate_all()
                 outs.append({p.relative_to(out).as_posix(): hashlib.sha256(p.read_bytes()).hexdigest() for p in out.rglob("*") if p.is_file()})
+                texts.append({p.relative_to(out).as_posix(): p.read_text() for p in out.rglob("*") if p.is_file()})
             for k in (1, 2):
                 for f, h in outs[k].items():
                     if not re.search(r"_\d+_\d+\.\w+$", f):
                         continue  # namespace files (e.g. __init__.py) list their members: not a per-type file
                     if f in outs[0] and outs[0][f] != h:
-                        return {"input": {"language": lang, "variant": ["whole", "subset without C", "reversed order"][k]}, "why": f"{f} differs from the whole-namespace run"}
-        return None
+                        memo_only = lang == "py" and _same_up_to_pydsdl_memo(texts[0][f], texts[k][f])
+                        found.append({"file": f, "lang": lang, "memo_only": memo_only,
+                                      "input": {"language": lang, "namespace_types": nstypes.name, "variant": ["whole", "subset without C", "reversed order"][k]},
+                                      "why": f"{f} differs from the whole-namespace run" + (" only in pydsdl's bit-length-set memo (_modula) pickled into _MODEL_" if memo_only else "")})
+        return found
     finally:
         shutil.rmtree(base, ignore_errors=True)
 
@@ -429,10 +478,14 @@ def main():
     run.add_bounded("a definition changed between two runs of one process (same name, version, bit length): second run == fresh-process run (c, cpp, py)", "1 redefinition, 3 languages", 3, rw is None, str(rw or ""))
     if rw and not run.failures:
         run.fail(report.Failure("native#redefinition-between-runs", "frame", f"{rw['input']}: {rw['why']}", {"witness": rw}, True))
-    w = native_subset_witness()
-    run.add_bounded("whole namespace vs dependency-closed subset vs reversed order: shared files byte-identical (c, py)", "3 types, 3 variants, 2 languages", 6, w is None, str(w or ""))
-    if w:
-        run.fail(report.Failure("native#subset/order", "frame", f"{w['input']}: {w['why']}", {"witness": w}, True))
+    ws = native_subset_witness()
+    def _nm(w):
+        return f"native#subset/order[{w['lang']}:{w['file']}]" + ("(pydsdl-memo-in-the-pickled-model)" if w.get("memo_only") else "")
+    names = sorted({_nm(w) for w in ws})
+    run.add_bounded("whole namespace vs dependency-closed subset vs reversed order: shared files byte-identical (c, py)", "5 types, 3 variants, 2 languages", 10, not ws, str(ws[:2] if ws else ""), names)
+    for nm in names:
+        w = next(x for x in ws if _nm(x) == nm)
+        run.fail(report.Failure(nm, "frame", f"{w['input']}: {w['why']}", {"witness": w}, True))
     from props import lean_glue
     lean_glue.lemmas(run, "Glue.lean", ["L2_per_file", "L2_order_independent"], "per-file output independent of the incoming generator state => each file's output in any sequence equals its output alone")
     run.trust("E-FX (vk/efx.py)", "lean 4 (history lemma L2: per-file state reset or transparent => output independent of earlier files/runs; lean/Glue.lean, checked on every run)")
